@@ -1658,6 +1658,8 @@ class Context:
         self._key_schedule_proxy = None
 
         # perform key exchange
+        if peer_hello.key_share is None:
+            raise AlertIllegalParameter("ServerHello has no key share")
         peer_public_key = decode_public_key(peer_hello.key_share)
         shared_key: Optional[bytes] = None
         try:
@@ -1988,6 +1990,8 @@ class Context:
             ec.EllipticCurvePublicKey, x25519.X25519PublicKey, x448.X448PublicKey
         ]
         shared_key: Optional[bytes] = None
+        if peer_hello.key_share is None:
+            raise AlertHandshakeFailure("ClientHello has no key share")
         for key_share in peer_hello.key_share:
             peer_public_key = decode_public_key(key_share)
             try:
